@@ -268,7 +268,14 @@ def rule_r7(ctx):
     c01.rule_r7(ctx, rid="C11.R7")
 
 
-RULES = [rule_r1, rule_r2, rule_r3, rule_r4, rule_r5, rule_r6, rule_r7]
+def rule_r8(ctx):
+    """Shared with C13.R5: a socket error swallowed while flushing marks the channel for closing on every path through the
+    handler - `will_close` is what the worker's keep-alive decision reads before it dispatches the next pipelined request."""
+    from . import c13
+    c13.rule_r5(ctx, rid="C11.R8")
+
+
+RULES = [rule_r1, rule_r2, rule_r3, rule_r4, rule_r5, rule_r6, rule_r7, rule_r8]
 
 from ..selftest import M, T, V  # noqa: E402
 
